@@ -126,6 +126,16 @@ class Subtask:
         params = ", ".join([str(a) for a in self._args])
         return f"{self.identifier}: {self._task.name}({params})"
 
+    def clone(self, new_actions=None) -> "Subtask":
+        """
+        Returns a copy of this subtask. If `new_actions` (an `ActionsSetMixin`, e.g. a cloned problem)
+        is given and the subtask is an action, the copy refers to the action with the same name in `new_actions`.
+        """
+        task = self._task
+        if new_actions is not None and isinstance(task, Action):
+            task = new_actions.action(task.name)
+        return Subtask(task, *self._args, ident=self._ident, _env=self._env)
+
     def __eq__(self, other):
         if not isinstance(other, Subtask):
             return False
